@@ -27,9 +27,15 @@ def _env():
 
 
 class _Lock:
+    """The project lock. Builds (and everything that rewrites files under lean/) take it exclusively; drivers and
+    axiom audits only READ the compiled files, so they share it among themselves and exclude builds only."""
+
+    def __init__(self, shared: bool = False):
+        self.shared = shared
+
     def __enter__(self):
-        self.f = open(LEAN_DIR / '.lock', 'w')
-        fcntl.flock(self.f, fcntl.LOCK_EX)
+        self.f = open(LEAN_DIR / '.lock', 'a')
+        fcntl.flock(self.f, fcntl.LOCK_SH if self.shared else fcntl.LOCK_EX)
         return self
 
     def __exit__(self, *a):
@@ -126,7 +132,7 @@ def audit(module: str, theorems: list[str]) -> tuple[dict, str]:
     # project lock, and an audit in which *nothing* elaborated right after a successful build is an
     # infrastructure hiccup, not a verdict: rebuild and try again, then give up with an error (exit 2).
     for attempt in range(3):
-        with _Lock():
+        with _Lock(shared=(attempt == 0)):
             if attempt:
                 _run(['lake', 'build', module])
             tmp.write_text(src)
@@ -185,7 +191,7 @@ class Driver:
         t0 = time.time()
         # under the project lock: another check's (clean) build must not pull the .olean
         # files from under a running driver
-        with _Lock():
+        with _Lock(shared=True):
             rc, out, err = _run(['lake', 'env', 'lean', '--run', str(self.path)],
                                 input='\n'.join(lines) + '\n', timeout=3600)
         self.seconds += time.time() - t0
